@@ -7,6 +7,7 @@ import (
 	"context"
 	"errors"
 	"fmt"
+	"sort"
 	"time"
 
 	"github.com/panjf2000/ants/v2"
@@ -103,11 +104,16 @@ func (s *vStore) GetNodesByPod(_ context.Context, f *types.NodeFilter, _ ...stor
 
 // ListNodeWorkloads serves RemoveNode's emptiness check (and the skipped remap).
 func (s *vStore) ListNodeWorkloads(_ context.Context, node string, _ map[string]string) ([]*types.Workload, error) {
-	var out []*types.Workload
-	for _, id := range []string{"w1", "w2", "w3"} {
-		if wl, ok := s.workloads[id]; ok && wl.Nodename == node {
-			out = append(out, wl)
+	var ids []string
+	for id, wl := range s.workloads {
+		if wl.Nodename == node {
+			ids = append(ids, id)
 		}
+	}
+	sort.Strings(ids)
+	var out []*types.Workload
+	for _, id := range ids {
+		out = append(out, s.workloads[id])
 	}
 	return out, nil
 }
